@@ -445,7 +445,7 @@ func main() {
 	if *tier == "thorough" {
 		nStruct, nScalar = 7, 5
 	}
-	special := []string{`"[{"`, `"},{"`, `"}]"`, `"[]"`, `"a,b"`, `"\"q\""`, `"\\"`, `"é"`, `"<&>"`, `"{\"place\":\"holder\"}"`, `"\"[]\""`, `"a\"}]\"b"`, `"\\\"[{"`, `"datagram"`, `""`, `"x"`,
+	special := []string{`"[{"`, `"},{"`, `"}]"`, `"[]"`, `"a,b"`, `"\"q\""`, `"\\"`, `"é"`, `"<&>"`, `"{\"place\":\"holder\"}"`, `"\"[]\""`, `"a\"}]\"b"`, `"\\\"[{"`, `"\\u003c"`, `"a\\u0026\\u003e"`, `"datagram"`, `""`, `"x"`,
 		`null`, `true`, `false`, `0`, `-1.50`, `1E400`, `12345678901234567890.123456789`, `1.0`}
 	families := []struct {
 		name string
